@@ -78,8 +78,11 @@ def _apply_disk(root: Path, ev: str, st: dict):
             (root / "b.py").write_text(B0)
     elif ev == "toggle_e":
         # a file that did not exist when the Linter was created (third copy of the block)
-        st["i"] ^= 1
-        if st["i"]:
+        # absent -> present with a `# dry: ignore-block` comment above the block -> present without it -> absent
+        st["i"] = (st["i"] + 1) % 3
+        if st["i"] == 1:
+            (root / "sub" / "e.py").write_text("def third_total(items):\n    # dry: ignore-block\n" + DUP)
+        elif st["i"] == 2:
             (root / "sub" / "e.py").write_text("def third_total(items):\n" + DUP)
         else:
             (root / "sub" / "e.py").unlink()
